@@ -20,6 +20,8 @@ RULE = (
     "(i2d_EC_PUBKEY, i2d_ECPrivateKey, PKCS8, PEM_write_bio_*, EC_POINT_point2oct) is decoded by the library. cli: the same through /usr/bin/openssl (ec/pkey -text, ec -conv_form "
     "-param_enc, pkcs8 -topk8, ec -pubout) on PEM. bec2hdr: P-256 keys (searched leading-zero X/Y + Hypothesis scalars): VerifyingKey.to_der() equals libcrypto's i2d byte for byte "
     "and starts with the 27-byte header; the plug-in's create_from_raw_fmt / to_raw_bin_fmt / create_from_der_fmt / to_der_fmt are exact inverses against X||Y from libcrypto. "
+    "buffers: every binary decoder (point strings in all four forms with and without valid_encodings, PointJacobi.from_bytes, ECDH loaders, public/private DER over the grid, ECParameters, raw private string, the plug-in's raw loader) "
+    "is given each valid encoding in a bytearray, a memoryview of bytes and a memoryview of a bytearray: same key, caller's buffer unchanged; one-byte-short / one-byte-long / wrong-parity-hybrid encodings in the same containers are refused exactly as the bytes object is. "
     "trunc: EVERY proper prefix and EVERY one-byte extension (256 values) of every DER encoding (library- and libcrypto-made, whole grid, ECParameters) and of every point / private string "
     "(auto-detecting and single-encoding decoders) must raise a documented error. mutate: every single-byte mutation {00, FF, ^1, ^0x80, +1, -1}, deletion and duplication at every "
     "position of every DER / point string / PEM (bytes and str) / ECParameters seed must decode or raise UnexpectedDER, MalformedPointError, UnknownCurveError or ValueError; any other "
@@ -71,7 +73,7 @@ REQUIRED_CLASSES = (
     ["curve=" + n for n in NAMES]
     + ["key.lead0-X", "key.lead0-Y", "key.lead0-d", "key.random", "params=named", "params=explicit", "priv=ssleay", "priv=pkcs8",
        "enc=raw", "enc=uncompressed", "enc=compressed", "enc=hybrid", "container=DER", "container=PEM", "src=library", "src=openssl",
-       "pointform=neg.scaled", "pointform=sum", "p256.header-identical", "p256.raw-roundtrip", "p256.lead0-X", "p256.lead0-Y", "trunc.prefix", "trunc.extension", "trunc.rejected",
+       "buffer=bytearray", "buffer=memoryview(bytearray)", "pointform=neg.scaled", "pointform=sum", "p256.header-identical", "p256.raw-roundtrip", "p256.lead0-X", "p256.lead0-Y", "trunc.prefix", "trunc.extension", "trunc.rejected",
        "mut.past-outer-seq", "mut.accepted", "gen.structural", "tiny.p=odd-square", "tiny.accepted", "fuzz.corpus=seeded"]
     + (["cli.reads-library-pem", "cli.library-reads-openssl-pem"] if os.path.exists("/usr/bin/openssl") else [])
     + ["mut.kind=" + k for k in MUT_KINDS]
@@ -529,6 +531,92 @@ def check_pointforms(case, rec):
         back = call("%s: PointJacobi.from_bytes(%s)" % (name, got.hex()), PointJacobi.from_bytes, cx.c.curve, got)
         if (int(back.x()), int(back.y())) != pub:
             raise Violation("%s: %s encoding of the point in form %s decodes to (%#x, %#x), expected (%#x, %#x)" % (name, enc, form, int(back.x()), int(back.y()), pub[0], pub[1]))
+
+
+# ------------------------------------------------------------------------------------------------ part: buffers
+# The binary decoders take "bytes-like objects": the same encoding handed over in a bytearray, a memoryview of bytes or a memoryview of a
+# bytearray (a receive buffer) decodes to the same key, a malformed one is refused with the same documented errors, and the caller's buffer
+# is left as it was.
+
+BUFFERS = {"bytearray": bytearray, "memoryview(bytes)": lambda b: memoryview(bytes(b)), "memoryview(bytearray)": lambda b: memoryview(bytearray(b))}
+
+
+def enum_buffers(tier, shard, nshards, rng):
+    i = 0
+    for name in NAMES:
+        for kind, d in key_list(name, tier)[-3:] if tier == "quick" else key_list(name, tier):
+            i += 1
+            if i % nshards == shard:
+                yield dict(curve=name, d=d, kind=KIND_CLASS.get(kind, kind))
+
+
+def check_buffers(case, rec):
+    from register_crypto_plugin.ecdsa.ecdh import ECDH
+    from register_crypto_plugin.ecdsa.ellipticcurve import PointJacobi
+
+    name, d = case["curve"], case["d"]
+    cx = Cx.get(name)
+    rec.cls("curve=" + name)
+    pub = cx.g.mul(d)
+    rec.nt()
+    sk, vk = lib_keys(cx, d)
+    L = cx.Lp
+    xy = pub[0].to_bytes(L, "big") + pub[1].to_bytes(L, "big")
+    points = {"raw": xy, "uncompressed": b"\x04" + xy, "hybrid": bytes([6 + (pub[1] & 1)]) + xy, "compressed": bytes([2 + (pub[1] & 1)]) + xy[:L]}
+
+    def ecdh_bytes(b):
+        e = ECDH(curve=cx.c)
+        e.load_received_public_key_bytes(b)
+        return e.public_key
+
+    def ecdh_der(b):
+        e = ECDH(curve=cx.c)
+        e.load_received_public_key_der(b)
+        return e.public_key
+
+    jobs = []  # (label, decoder, valid bytes, kind of result)
+    for enc, data in points.items():
+        jobs.append(("VerifyingKey.from_string(%s)" % enc, lambda b: LK.VerifyingKey.from_string(b, cx.c), data, "vk"))
+        jobs.append(("VerifyingKey.from_string(%s, valid_encodings=[%s])" % (enc, enc), lambda b, enc=enc: LK.VerifyingKey.from_string(b, cx.c, valid_encodings=[enc]), data, "vk"))
+        jobs.append(("PointJacobi.from_bytes(%s)" % enc, lambda b: PointJacobi.from_bytes(cx.c.curve, b), data, "pt"))
+        jobs.append(("ECDH.load_received_public_key_bytes(%s)" % enc, ecdh_bytes, data, "vk"))
+    for explicit in (False, True):
+        for enc in ENC3:
+            jobs.append(("VerifyingKey.from_der(%s,%s)" % (enc, pname(explicit)), LK.VerifyingKey.from_der, bytes(lib_pub(vk, enc, explicit, False)), "vk"))
+            for fmt in ("ssleay", "pkcs8"):
+                jobs.append(("SigningKey.from_der(%s,%s,%s)" % (enc, fmt, pname(explicit)), LK.SigningKey.from_der, bytes(lib_priv(sk, enc, fmt, explicit, False)), "sk"))
+        jobs.append(("Curve.from_der(%s)" % pname(explicit), LC.Curve.from_der, bytes(cx.c.to_der("explicit" if explicit else "named_curve")), "curve"))
+    jobs.append(("ECDH.load_received_public_key_der", ecdh_der, bytes(vk.to_der()), "vk"))
+    jobs.append(("SigningKey.from_string", lambda b: LK.SigningKey.from_string(b, cx.c), d.to_bytes(cx.Ln, "big"), "sk"))
+    if name == "NIST256p":
+        jobs.append(("plug-in create_from_raw_fmt", lambda b: PLUG.PublicEccKeyProxy.create_from_raw_fmt(b).public_key, xy, "vk"))
+    for label, dec, data, what in jobs:
+        for bname, wrap in BUFFERS.items():
+            rec.cls("buffer=" + bname)
+            arg = wrap(data)
+            got = call("%s: %s on a %s holding a valid encoding %s" % (name, label, bname, data.hex()[:80]), dec, arg)
+            if bytes(arg) != data:
+                raise Violation("%s: %s changed the caller's %s" % (name, label, bname))
+            if what == "vk":
+                expect_vk(cx, pub, got, "%s on a %s" % (label, bname))
+            elif what == "sk":
+                expect_sk(cx, d, pub, got, "%s on a %s" % (label, bname))
+            elif what == "pt":
+                if (int(got.x()), int(got.y())) != pub:
+                    raise Violation("%s: %s on a %s decodes to another point" % (name, label, bname))
+            elif not (got == cx.c):
+                raise Violation("%s: %s on a %s decodes to another curve" % (name, label, bname))
+            # malformed in the same container: one byte short, one byte long, and (hybrid) the other parity prefix - the outcome class is
+            # that of the same bytes handed over as a bytes object, and never an undocumented exception
+            bad = [data[:-1], data + b"\x00"]
+            if data[:1] in (b"\x06", b"\x07") and len(data) == 1 + 2 * L and what in ("vk", "pt"):
+                bad.append(bytes([data[0] ^ 1]) + data[1:])
+            for m in bad:
+                r0, o0 = try_decode(dec, m)
+                r1, o1 = try_decode(dec, wrap(m))
+                if r1 == "bad" or r0 != r1:
+                    raise Violation("%s: %s on a malformed encoding %s: as bytes -> %s, as %s -> %s (%s: %s)" % (
+                        name, label, m.hex()[:80], r0, bname, r1, type(o1).__name__, str(o1)[:200]))
 
 
 # ------------------------------------------------------------------------------------------------ part: bec2hdr (P-256 header)
@@ -1442,6 +1530,7 @@ def bulk_fuzz(tier, shard, nshards, rec, rng):
 def parts(tier):
     return [
         Part("formats", check=check_formats, enum=enum_formats, quick=(16, 0), thorough=(16, 0)),
+        Part("buffers", check=check_buffers, enum=enum_buffers, quick=(16, 0), thorough=(16, 0)),
         Part("pointforms", check=check_pointforms, enum=enum_pointforms, quick=(16, 0), thorough=(16, 0)),
         Part("bec2hdr_keys", check=check_p256, enum=enum_p256, quick=(2, 0), thorough=(2, 0)),
         Part("bec2hdr", check=check_p256, strategy=strat_p256, quick=(4, 60), thorough=(16, 1500)),
